@@ -110,6 +110,43 @@ def moveaxis(w, seed, spec):
     from furax import MoveAxisOperator
     from furax._base.rules import NoReduction
     fails = []
+    # pytrees whose leaves have different ranks, negative and positive axes
+    for shapes in ([(2, 3), (2, 3, 4)], [(2, 3, 4, 5), (2, 3)], [(3, 2), (4, 3, 2)]):
+        nd = min(len(s_) for s_ in shapes)
+        for src, dst in itertools.product(range(-nd, nd), repeat=2):
+            for sarg, darg in ((src, dst), ((src,), (dst,))):
+                xs = [np.arange(int(np.prod(s_)), dtype=np.float32).reshape(s_) for s_ in shapes]
+                try:
+                    op = MoveAxisOperator(sarg, darg, in_structure=[S(s_) for s_ in shapes])
+                    ys = op([jnp.asarray(x) for x in xs])
+                except Exception as e:      # noqa: BLE001
+                    fails.append(f'MoveAxisOperator({sarg},{darg}) on leaves {shapes} raised {type(e).__name__}')
+                    continue
+                for x, y in zip(xs, ys):
+                    if not close(y, np.moveaxis(x, src, dst)):
+                        fails.append(f'MoveAxisOperator({sarg},{darg}) differs from numpy.moveaxis on leaf {x.shape} of {shapes}')
+                if len(fails) > 5:
+                    return fails
+    # every product of two move-axis operators must reduce to an operator with the same action
+    from furax._base.core import CompositionOperator
+    shape = (2, 3, 4)
+    moves = [((0,), (1,)), ((0, 1), (1, 2)), ((2, 1), (0, 1)), ((1, 2), (0, 1)), ((-1, 1), (0, 1)), ((0, 1), (1, -1)),
+             ((0, 2), (2, 0)), ((1, 0), (2, 1))]
+    x = np.arange(24, dtype=np.float32).reshape(shape)
+    for (s1, d1), (s2, d2) in itertools.product(moves, moves):
+        try:
+            right = MoveAxisOperator(s2, d2, in_structure=S(shape))
+            left = MoveAxisOperator(s1, d1, in_structure=right.out_structure())
+            comp = CompositionOperator([left, right])
+            want = np.asarray(comp(jnp.asarray(x)))
+            got = np.asarray(comp.reduce()(jnp.asarray(x)))
+        except Exception as e:      # noqa: BLE001
+            fails.append(f'moveaxis{(s1, d1)} @ moveaxis{(s2, d2)}: {type(e).__name__}')
+            continue
+        if got.shape != want.shape or not np.allclose(got, want):
+            fails.append(f'(moveaxis{(s1, d1)} @ moveaxis{(s2, d2)}).reduce() changes the result')
+        if len(fails) > 5:
+            return fails
     for shape in [(2, 3), (2, 3, 4), (2, 3, 4, 5)]:
         nd = len(shape)
         for k in (1, 2):
